@@ -213,6 +213,19 @@ Theorem functional_derivative_is_frechet :
 Proof. exact functional_derivative_sound. Qed.
 Print Assumptions functional_derivative_is_frechet.
 
+(* The unrestricted statement (drop [fok w f]) is FALSE of the faithful model -- the recorded
+   finding FunctionalComp-MatrixOperator-weighted-space:
+     forall f w x, fwt f = true -> length w = fdim f -> length x = fdim f -> fregular w f x ->
+       sdiff (fdim f) (feval sqrt w f) x (fun d => wdot w d (fgrad sqrt w f x)).
+   Witness: L2NormSquared(rn(1)) o MatrixOperator([[1]]) on rn(1, weighting=2) at x = 1
+   (the code answers 4 d, the derivative is 2 d).  The theorem above is the partial
+   statement with the exact precondition. *)
+Theorem functional_gradient_weighted_composition_refuted :
+  fwt bad_f = true /\ length [2] = fdim bad_f /\ fregular [2] bad_f [1] /\
+  ~ sdiff (fdim bad_f) (feval sqrt [2] bad_f) [1] (fun d => wdot [2] d (fgrad sqrt [2] bad_f [1])).
+Proof. exact fgrad_weighted_comp_refuted. Qed.
+Print Assumptions functional_gradient_weighted_composition_refuted.
+
 (* a weighted example without composition, and an unweighted one with a matrix composition *)
 Example functional_premises_hold :
   (fwt ex_f = true /\ fok [2; 3] ex_f = true /\ length [2; 3] = fdim ex_f /\ length [1; 2] = fdim ex_f /\
